@@ -68,6 +68,8 @@ fn step_text(s: &Step) -> String { match s { Step::Add(c) => c.text(), Step::Uni
 pub fn run(ctx: &Ctx) -> Report {
     let mut rep = Report::new("C14", "holders of Vec / Set / MultiSet / Pair / Map (keys never unioned) / Vec-of-Set over four element constants; random sequences of holder insertions, unions of elements and runs of rules matching through the containers; after every step: holder equalities, holder table sizes and rule marks against the reference normal forms, semi-naive against naive, 1 thread against 4. non-trivial = a union that makes two distinct containers equal or collapses set/multiset elements (distinct by history)");
     let mut rng = Rng::new(ctx.seed ^ 0xC14);
+    // the dirty-id closure of container rebuilds, on the real ContainerValues (C14_closure_*)
+    closure_stream(&mut rep, &mut rng, ctx.n(400, 6000));
     let mut lean_lines = vec![]; let mut lean_expect = vec![];
     // small e-graphs (non-incremental container rebuild) and e-graphs with > 1000 containers of each kind
     // (incremental rebuild driven by the reverse index contained-id -> containers)
@@ -177,5 +179,114 @@ fn cases(rep: &mut Report, rng: &mut Rng, n: usize, big: Option<(&EGraph, usize,
             lean_lines.push(format!("cn set {} | {}", f.iter().map(|x| x.to_string()).collect::<Vec<_>>().join(" "), v.iter().map(|x| x.to_string()).collect::<Vec<_>>().join(" ")));
             if let Cont::Set(w) = h.norm(&f) { lean_expect.push(w.iter().map(|x| x.to_string()).collect::<Vec<_>>().join(" ")); }
         } }
+    }
+}
+
+// ------------------------------------------------------------------------------------------------
+// the dirty-id closure of a container rebuild, on the real `ContainerValues` (core-relations)
+// ------------------------------------------------------------------------------------------------
+
+#[derive(Hash, PartialEq, Eq, Clone, Debug)]
+struct VC(Vec<egglog_core_relations::Value>);
+impl egglog_core_relations::ContainerValue for VC {
+    fn rebuild_contents(&mut self, rebuilder: &dyn egglog_core_relations::ValueRebuilder) -> bool { rebuilder.rebuild_slice(&mut self.0) }
+    fn iter(&self) -> impl Iterator<Item = egglog_core_relations::Value> + '_ { self.0.iter().copied() }
+}
+
+/// Containers nested up to five deep over a handful of base ids, registered in a real `Database`; unions of base ids
+/// go into a `DisplacedTable`; `rebuild_containers` rewrites the containers and reports the dirty ids.  Checked:
+///  * every container that kept its id and changed its contents is reported (`direct`);
+///  * the reported set is closed under "is contained in" — at every depth — read from the containers as they are
+///    after the rebuild (`for_each`);
+///  * the Lean model of the worklist loop (theorems C14_closure_exact / _closed / _total), run on the same
+///    containment edges and the directly changed ids, returns a set that is contained in the reported one
+///    (the reported one may be larger: the content index `val_index` keeps entries of former contents).
+pub fn closure_stream(rep: &mut Report, rng: &mut Rng, n: usize) {
+    use egglog_core_relations::{Database, DisplacedTable, Value};
+    use egglog_numeric_id::NumericId;
+    use std::panic::{catch_unwind, AssertUnwindSafe};
+    let mut lean_lines: Vec<String> = vec![]; let mut lean_want: Vec<(BTreeSet<u32>, BTreeSet<u32>, String)> = vec![];
+    for case in 0..n {
+        let nbase = 3 + rng.below(5); let depth = 1 + rng.below(5); let per = 1 + rng.below(4); let rounds = 1 + rng.below(3);
+        let seed_case = rng.next();
+        let res = catch_unwind(AssertUnwindSafe(|| -> Result<Vec<(String, BTreeSet<u32>, BTreeSet<u32>, String)>, String> {
+            let mut rng = Rng::new(seed_case);
+            let mut out = vec![];
+            let mut db = Database::new();
+            let uf = db.add_table(DisplacedTable::default(), std::iter::empty(), std::iter::empty());
+            let counter = db.add_counter();
+            // timestamps of the union-find rows must not decrease: the merge function stamps with the current one
+            let now = std::sync::Arc::new(std::sync::atomic::AtomicU32::new(0)); let now2 = now.clone();
+            db.container_values_mut().register_type::<VC>(counter, move |st: &mut egglog_core_relations::ExecutionState, a: Value, b: Value| {
+                // two containers became equal: keep the smaller id and tell the union-find
+                let (mn, mx) = if a.rep() <= b.rep() { (a, b) } else { (b, a) };
+                if mn != mx { st.stage_insert(uf, &[mx, mn, Value::new(now2.load(std::sync::atomic::Ordering::SeqCst))]); }
+                mn
+            });
+            let base: Vec<Value> = (0..nbase).map(|_| Value::from_usize(db.inc_counter(counter))).collect();
+            let mut hist = format!("base ids {:?}; ", base.iter().map(|b| b.rep()).collect::<Vec<_>>());
+            // levels of containers: level k mixes ids of level k-1 (at least one) with base ids
+            let mut prev: Vec<Value> = base.clone();
+            for lvl in 0..depth {
+                let mut cur = vec![];
+                for _ in 0..per {
+                    let len = 1 + rng.below(3);
+                    let mut items: Vec<Value> = vec![prev[rng.below(prev.len())]];
+                    for _ in 1..len { items.push(if rng.chance(1, 2) { prev[rng.below(prev.len())] } else { base[rng.below(base.len())] }); }
+                    let id = db.with_execution_state(None, |es| db.container_values().register_val(VC(items.clone()), es));
+                    hist.push_str(&format!("L{} #{}={:?}; ", lvl + 1, id.rep(), items.iter().map(|x| x.rep()).collect::<Vec<_>>()));
+                    cur.push(id);
+                }
+                prev = cur;
+            }
+            db.merge_all();
+            let snapshot = |db: &Database| -> BTreeMap<u32, Vec<u32>> { let mut m = BTreeMap::new(); db.container_values().for_each::<VC>(|c, id| { m.insert(id.rep(), c.0.iter().map(|x| x.rep()).collect()); }); m };
+            let mut ts = 1u32;
+            for _ in 0..rounds {
+                let k = 1 + rng.below(2);
+                { let mut buf = db.new_buffer(uf); for _ in 0..k { let (a, b) = (base[rng.below(base.len())], base[rng.below(base.len())]); if a != b { let (mn, mx) = if a.rep() <= b.rep() { (a, b) } else { (b, a) }; buf.stage_insert(&[mx, mn, Value::new(ts)]); hist.push_str(&format!("union {} {}; ", mx.rep(), mn.rep())); } } }
+                now.store(ts, std::sync::atomic::Ordering::SeqCst);
+                ts += 1;
+                db.merge_all();
+                // rebuild until nothing changes, as the e-graph does; every single rebuild is checked
+                for _pass in 0..8 {
+                    let before = snapshot(&db);
+                    let summary = db.rebuild_containers(uf);
+                    db.merge_all();
+                    let after = snapshot(&db);
+                    let dirty: BTreeSet<u32> = summary.dirty_ids().iter().map(|x| x.rep()).collect();
+                    let direct: BTreeSet<u32> = after.iter().filter(|(id, c)| before.get(id).is_some_and(|b| b != *c)).map(|(id, _)| *id).collect();
+                    hist.push_str(&format!("rebuild -> dirty {dirty:?}; "));
+                    if let Some(m) = direct.iter().find(|d| !dirty.contains(d)) { return Err(format!("container #{m} kept its id and changed its contents ({:?} -> {:?}) but is not reported dirty {dirty:?} | {hist}", before[m], after[m])); }
+                    for (id, c) in &after { if c.iter().any(|x| dirty.contains(x)) && !dirty.contains(id) { return Err(format!("container #{id} = {c:?} holds a dirty id but is not itself reported dirty {dirty:?}: the closure stopped short | {hist}")); } }
+                    let edges: Vec<String> = after.iter().flat_map(|(id, c)| { let mut cs: Vec<u32> = c.clone(); cs.sort(); cs.dedup(); cs.into_iter().map(move |x| format!("{x}>{id}")) }).collect();
+                    let line = format!("cl close {} {} {}", after.len() + nbase + 2, if edges.is_empty() { "-".into() } else { edges.join(",") }, if direct.is_empty() { "-".into() } else { direct.iter().map(|x| x.to_string()).collect::<Vec<_>>().join(",") });
+                    out.push((line, direct.clone(), dirty.clone(), hist.clone()));
+                    if !summary.changed() { break; }
+                }
+            }
+            Ok(out)
+        }));
+        rep.evaluations += 1;
+        match res {
+            Err(e) => rep.violate("property", "c14-closure-panic", format!("container rebuild panicked (case {case}): {}", e.downcast_ref::<String>().cloned().or_else(|| e.downcast_ref::<&str>().map(|s| s.to_string())).unwrap_or_default()), json!({"case_seed": seed_case, "nbase": nbase, "depth": depth, "per": per, "rounds": rounds})),
+            Ok(Err(what)) => rep.violate("property", "c14-dirty-closure-incomplete", what, json!({"case_seed": seed_case, "nbase": nbase, "depth": depth, "per": per, "rounds": rounds})),
+            Ok(Ok(items)) => for (line, direct, dirty, hist) in items {
+                if !direct.is_empty() && depth >= 3 && dirty.len() > direct.len() + 1 { rep.note_nontrivial(&(&hist, "deep")); }
+                if !direct.is_empty() { rep.count("closure_rebuilds_with_in_place_changes", 1); }
+                if dirty.len() > direct.len() { rep.count("closure_rebuilds_with_ancestors_added", 1); }
+                lean_lines.push(line); lean_want.push((direct, dirty, hist));
+            },
+        }
+    }
+    match run_driver(&lean_lines) {
+        Err(e) => rep.violate("correspondence", "driver-failure", e, json!({})),
+        Ok(m) => for (i, (direct, dirty, hist)) in lean_want.iter().enumerate() {
+            rep.traces_vs_model += 1;
+            if m[i] == "none" || m[i] == "bad-op" { rep.violate("correspondence", "c14-closure-model-failed", format!("the Lean closure returned `{}` for `{}`", m[i], lean_lines[i]), json!({"history": hist})); continue; }
+            let model: BTreeSet<u32> = m[i].split(',').filter(|x| !x.is_empty()).filter_map(|x| x.parse().ok()).collect();
+            if let Some(x) = model.iter().find(|x| !dirty.contains(x)) { rep.violate("property", "c14-dirty-closure-incomplete", format!("id {x} is an ancestor of the in-place changed containers {direct:?} (Lean closure {model:?}, C14_closure_exact) but the rebuild reported only {dirty:?}"), json!({"history": hist, "line": lean_lines[i]})); }
+            else if &model == dirty { rep.count("closure_equal_to_model", 1); } else { rep.count("closure_superset_of_model(stale content index)", 1); }
+        }
     }
 }
